@@ -58,6 +58,8 @@ pub const VALS_T: [&str; 20] = [
 /// value subset of the 2-deviation space
 pub const VALS2: [usize; 6] = [0, 4, 2, 3, 6, 7];
 /// value subset of the 2-deviation space over neighbouring header-level fields (thorough)
+/// thorough: a seed's located sites beyond this many take the quick ladder (10 values) instead of VALS_T
+pub const FAR_SITES: usize = 2048;
 pub const VALS2N: [usize; 8] = [0, 1, 2, 3, 4, 6, 7, 15];
 
 pub fn value(vi: usize, orig: u32, file_len: usize, site_off: usize) -> u32 {
@@ -327,12 +329,23 @@ impl Seed {
 
 // ------------------------------------------------------------------ prefix ladders
 
-/// thorough: every length (every truncation point of the seed).
+/// seeds above this size (one: the 256-chunk terrain tile) do not get every truncation point
+pub const HUGE_SEED: usize = 256 << 10;
+
+/// thorough: every length (every truncation point of the seed); for a seed above HUGE_SEED every length
+/// within the first 64 KiB and the last 4 KiB and every 7th in between (7 is coprime to the 4/8-byte
+/// alignment of the chunk stream: every chunk header is cut at least once, at every offset class).
 /// quick: every length up to 160, every 11th up to 4 KiB, every 997th beyond, the last 16.
 pub fn prefix_lengths(len: usize, thorough: bool) -> Vec<usize> {
     let mut v = vec![];
     if thorough {
-        v.extend(0..len);
+        if len > HUGE_SEED {
+            v.extend(0..(64 << 10));
+            v.extend(((64 << 10)..len).step_by(7));
+            v.extend(len - 4096..len);
+        } else {
+            v.extend(0..len);
+        }
     } else {
         v.extend(0..len.min(160));
         v.extend((160..len.min(4096)).step_by(11));
@@ -352,6 +365,10 @@ pub struct SeedSpace {
     /// site indices enumerated in the 1-deviation field class (strided in quick)
     pub field_sites: Vec<usize>,
     pub vals: Vec<usize>,
+    /// thorough: the sites from position `far_from` of `field_sites` on take the values `vals_far` (the
+    /// quick ladder); only a seed with more than FAR_SITES located sites has such sites
+    pub far_from: usize,
+    pub vals_far: Vec<usize>,
     pub chunk_ops: Vec<Dev>,
     /// header-level site indices of the 2-deviation class (empty in quick)
     pub pair_sites: Vec<usize>,
@@ -368,11 +385,15 @@ impl SeedSpace {
     }
     pub fn len(&self) -> u64 {
         1 + self.prefixes.len() as u64
-            + (self.field_sites.len() * self.vals.len()) as u64
+            + self.field_cases()
             + self.chunk_ops.len() as u64
             + self.pairs() * (VALS2.len() * VALS2.len()) as u64
             + self.near_cases()
             + self.appends as u64
+    }
+    pub fn field_cases(&self) -> u64 {
+        let near = self.far_from.min(self.field_sites.len());
+        (near * self.vals.len() + (self.field_sites.len() - near) * self.vals_far.len()) as u64
     }
     pub fn near_cases(&self) -> u64 {
         self.near_pairs.len() as u64 * (VALS2N.len() * VALS2N.len()) as u64
@@ -386,12 +407,20 @@ impl SeedSpace {
             return Dev::Prefix(self.prefixes[i as usize]);
         }
         i -= self.prefixes.len() as u64;
-        let nf = (self.field_sites.len() * self.vals.len()) as u64;
+        let nf = self.field_cases();
         if i < nf {
             // value varies fastest
-            let s = (i / self.vals.len() as u64) as usize;
-            let v = (i % self.vals.len() as u64) as usize;
-            return Dev::Field { site: self.field_sites[s], val: self.vals[v] };
+            let near = self.far_from.min(self.field_sites.len());
+            let n_near = (near * self.vals.len()) as u64;
+            if i < n_near {
+                let s = (i / self.vals.len() as u64) as usize;
+                let v = (i % self.vals.len() as u64) as usize;
+                return Dev::Field { site: self.field_sites[s], val: self.vals[v] };
+            }
+            let j = i - n_near;
+            let s = near + (j / self.vals_far.len() as u64) as usize;
+            let v = (j % self.vals_far.len() as u64) as usize;
+            return Dev::Field { site: self.field_sites[s], val: self.vals_far[v] };
         }
         i -= nf;
         if i < self.chunk_ops.len() as u64 {
